@@ -7,7 +7,9 @@
 //	                           => <reply:<len> | closed | panic:<text>> <same|changed>
 //	udpsrv <payloadhex>/...    MEASUREMENT: the datagrams are sent to the real udpserver on 127.0.0.1 (reporter
 //	                           dispatcher as handler); after each one an `available` request must be answered
-//	                           => <alive|dead> per datagram, then replies:<n> (replies to the malformed datagrams)
+//	                           => <alive|dead> per datagram, then replies:<n> (replies to the malformed datagrams),
+//	                           src=<client port> per=<w1>/<w2>/… (w: the replies received in that datagram's window,
+//	                           hex joined by "+", "-" for none; the availability answer itself is not listed)
 package c06
 
 import (
@@ -589,6 +591,8 @@ func runUDPServer(args []string) []string {
 	avail := reputil.Available()
 	var out []string
 	extra := 0
+	// per datagram: the replies received between sending it and the end of its window (all but the availability answer)
+	var per []string
 	buf := make([]byte, 4096)
 	for _, h := range strings.Split(args[0], "/") {
 		payload := core.MustUnHex(h)
@@ -597,6 +601,7 @@ func runUDPServer(args []string) []string {
 		// collect replies until the availability answer arrives (handlers run on their own goroutines,
 		// so the answer to the malformed datagram may come before or after it)
 		alive := false
+		var window []string
 		deadline := time.Now().Add(3 * time.Second)
 		for time.Now().Before(deadline) {
 			_ = conn.SetReadDeadline(time.Now().Add(300 * time.Millisecond))
@@ -613,17 +618,31 @@ func runUDPServer(args []string) []string {
 				_ = conn.SetReadDeadline(time.Now().Add(20 * time.Millisecond))
 				if n2, err2 := conn.Read(buf); err2 == nil && n2 > 0 {
 					extra++
+					window = append(window, core.Hex(buf[:n2]))
 				}
 				break
 			}
 			extra++
+			window = append(window, core.Hex(buf[:n]))
 		}
 		if alive {
 			out = append(out, "alive")
 		} else {
 			out = append(out, "dead")
 		}
+		if len(window) == 0 {
+			per = append(per, "-")
+		} else {
+			per = append(per, strings.Join(window, "+"))
+		}
 	}
 	out = append(out, fmt.Sprintf("replies:%d", extra))
+	// appended last (older recorded outputs end at replies:<n>): the client socket's port (the source the dispatcher sees,
+	// 127.0.0.1:<port>) and the replies of each datagram's window
+	srcPort := 0
+	if la, ok := conn.LocalAddr().(*net.UDPAddr); ok {
+		srcPort = la.Port
+	}
+	out = append(out, fmt.Sprintf("src=%d", srcPort), "per="+strings.Join(per, "/"))
 	return out
 }
